@@ -107,6 +107,14 @@ Theorem C07_expect : forall p : prog, NoDup (map fst (p_pre p)) -> expect_failed
 Proof. exact expect_forces_failure. Qed.
 Print Assumptions C07_expect.
 
+(* where super().setUp() / super().tearDown() stand among the statements of setUp / tearDown makes no difference:
+   the base methods leave the details and force_failure alone (an expectThat before the upcall counts) *)
+Theorem C07_upcall_anywhere : forall p u v,
+  run_test {| p_pre := p_pre p; p_setup := p_setup p; p_setup_up := u; p_body := p_body p;
+              p_teardown := p_teardown p; p_teardown_up := v; p_cleanups := p_cleanups p |} = run_test p.
+Proof. exact upcall_anywhere. Qed.
+Print Assumptions C07_upcall_anywhere.
+
 (* ... and it never raises, wherever it stands *)
 Theorem C07_expect_never_raises : forall steps k s b,
   nth_error steps k = Some s -> s_kind s = ExpectThat -> nth_error (exp_raised steps) k = Some b -> b = false.
@@ -128,24 +136,27 @@ Example C07_example :
   /\ text_repr_lit false np [97; 39; 39; 39; 98; 10; 133]%N None
      = text_repr_tok false np [97; 39; 39; 39; 98; 10; 133]%N None
   /\ eval_lit (text_repr_lit false np [97; 39; 39; 39; 98; 10; 133]%N None) = Some (false, [97; 39; 39; 39; 98; 10; 133]%N)
-  /\ r_details (run_test {| p_pre := [("a", 1)]%string; p_setup := [];
+  /\ r_details (run_test {| p_pre := [("a", 1)]%string; p_setup := []; p_setup_up := 0;
                             p_body := [{| s_kind := ExpectThat; s_mis := Some [("a", 2); ("a-1", 3)]%string |};
                                        {| s_kind := AssertThat; s_mis := Some [("a", 4)]%string |};
                                        {| s_kind := ExpectThat; s_mis := Some [("b", 5)]%string |}];
-                            p_teardown := []; p_cleanups := [] |})
+                            p_teardown := []; p_teardown_up := 0; p_cleanups := [] |})
      = Some [("a", 1); ("a-1", 2); ("a-1-1", 3); ("Failed expectation", 0); ("a-2", 4)]%string
   (* a failed expectation, then the test skips; a cleanup reaches an expected failure: still a failure *)
-  /\ (let p := {| p_pre := []; p_setup := [];
+  /\ (let p := {| p_pre := []; p_setup := []; p_setup_up := 0;
                   p_body := [{| s_kind := ExpectThat; s_mis := Some [] |}; {| s_kind := Raise XSkip; s_mis := None |};
                              {| s_kind := AssertThat; s_mis := None |}];
-                  p_teardown := [{| s_kind := AssertThat; s_mis := None |}];
+                  p_teardown := [{| s_kind := AssertThat; s_mis := None |}]; p_teardown_up := 1;
                   p_cleanups := [[{| s_kind := Raise XXFail; s_mis := None |}]] |} in
       r_outcome (run_test p) = Failure /\ r_raised (run_test p) = [[]; [false; true]; [false]; [true]]
       /\ expect_failed p = true)
   (* the expectation fails in setUp, setUp then skips: the test method does not run, the test is a failure *)
   /\ (r_outcome (run_test witness_F21) = Failure /\ r_raised (run_test witness_F21) = [[false; true]]
       /\ expect_failed witness_F21 = true)
+  (* the expectation fails in setUp before the upcall of the base setUp *)
+  /\ r_outcome (run_test {| p_pre := []; p_setup := [{| s_kind := ExpectThat; s_mis := Some [] |}]; p_setup_up := 1;
+                            p_body := []; p_teardown := []; p_teardown_up := 0; p_cleanups := [] |}) = Failure
   (* without the expectation the exception caught last decides *)
-  /\ r_outcome (run_test {| p_pre := []; p_setup := []; p_body := [{| s_kind := Raise XSkip; s_mis := None |}];
-                            p_teardown := []; p_cleanups := [[{| s_kind := Raise XXFail; s_mis := None |}]] |}) = ExpFailure.
+  /\ r_outcome (run_test {| p_pre := []; p_setup := []; p_setup_up := 0; p_body := [{| s_kind := Raise XSkip; s_mis := None |}];
+                            p_teardown := []; p_teardown_up := 0; p_cleanups := [[{| s_kind := Raise XXFail; s_mis := None |}]] |}) = ExpFailure.
 Proof. vm_compute. repeat split. Qed.
